@@ -77,7 +77,12 @@ impl MarkdownEventsReader {
                             }
                         }
                     } else {
-                        self.metadata = Some(text.to_string());
+                        // a metadata block may arrive in several text events (e.g. CRLF input)
+                        self.metadata = Some(format!(
+                            "{}{}",
+                            self.metadata.take().unwrap_or_default(),
+                            text
+                        ));
                     }
                 }
                 Code(text) => {
